@@ -10,6 +10,7 @@ package simrt
 import (
 	"container/heap"
 	"fmt"
+	"os"
 	"runtime"
 	"strings"
 	"time"
@@ -20,6 +21,11 @@ import (
 type Config struct {
 	Seed       uint64
 	PreemptPct int   // probability (percent) to switch task at a yield point
+	// SlowPermille: probability (per mille) that, at a yield point, the running
+	// task stalls until the deadline of a pending timer (usually the next one).
+	// Without it a tick can never land in the middle of a request, because
+	// operations take no virtual time; real stalls (I/O, GC, scheduling) allow it.
+	SlowPermille int
 	StartNanos int64 // virtual wall clock at start (unix nanos)
 	MaxSteps   uint64
 	ShuffleMap bool     // permute map iteration order from the tape (else sorted)
@@ -113,6 +119,8 @@ type Sim struct {
 
 // GlobalMaxPreempt (>= 0) caps the number of preemptive switches of every
 // simulation in this process (used when minimising a failing schedule).
+var traceTasks = os.Getenv("VERIF_LOG_TASKS") != ""
+
 var GlobalMaxPreempt = -1
 
 // GlobalSkipPreempt suppresses the first K preemptive switches of every
@@ -194,6 +202,9 @@ func (s *Sim) newTask(name string, f func()) *Task {
 		}
 		if t.ID == 0 {
 			raceAcquire(unsafe.Pointer(&s.startSync))
+		}
+		if traceTasks {
+			fmt.Printf("  TASK start id=%d %s t=%d\n", t.ID, t.Name, s.now)
 		}
 		defer func() {
 			raceRelease(unsafe.Pointer(&s.endSync))
@@ -371,6 +382,28 @@ func (s *Sim) yield(site string) {
 	}
 	if s.OnYield != nil {
 		s.OnYield(site)
+	}
+	if s.cfg.SlowPermille > 0 && s.timers.Len() > 0 && !(GlobalMaxPreempt >= 0 && int(s.Preempt) >= GlobalMaxPreempt) &&
+		s.Tape.Next(1000) < s.cfg.SlowPermille {
+		if s.skipped < GlobalSkipPreempt {
+			s.skipped++
+		} else {
+			// the running task stalls (I/O, GC, descheduled) until a pending timer's
+			// deadline: every other task keeps running, the clock only moves when
+			// they are all blocked, and the stalled task resumes at the very instant
+			// that timer fires - in the middle of whatever it was doing
+			// (only the next deadline, and only if it is near: a task that sleeps
+			// through minutes of other tasks' work is a different experiment, and
+			// liveness oracles would have to discount it)
+			ti := 0
+			if dl := s.timers[ti].when; !s.timers[ti].dead && dl > s.now && dl-s.now <= int64(time.Second) {
+				s.Preempt++ // counted with the preemptions: the minimiser shrinks both with one budget
+				s.Stats["stall-until-timer"]++
+				woke := false
+				s.addTimer(time.Duration(dl-s.now), func() { woke = true }) // own timer: the other one may be stopped
+				s.block(func() bool { return woke }, "stalled")
+			}
+		}
 	}
 	if s.cfg.PreemptPct <= 0 {
 		return
